@@ -577,6 +577,12 @@ def c_call(run, n, terms, meta):
             a, b = "-" * run.rng.randrange(25, 30), tuple("w" * run.rng.randrange(25, 36) for _ in range(run.rng.randrange(4, 9)))
             expr, args, joint, result = "$a.join($b)", [a, b], False, a.join(b)
         ctx["a"], ctx["b"] = a, b
+        variables = {"a": a, "b": list(b) if isinstance(b, tuple) else b, "b_is_tuple": isinstance(b, tuple),
+                     "a_is_tuple": isinstance(a, tuple)}
+        if isinstance(a, tuple):
+            variables["a"] = list(a)
+        if form == "replace":
+            variables["c"] = c
         sizes = [sys.getsizeof(x, 0) for x in args]
         if form == "join":
             sizes += [sys.getsizeof(x, 0) for x in b[:0]]
@@ -600,7 +606,8 @@ def c_call(run, n, terms, meta):
         elif Q > 0 and max(sizes) > Q and not raised:
             pred = "%s was handed an argument of %d bytes under quota %d" % (expr, max(sizes), Q)
         terms.append("CCall %s %s %s %s %s" % (gal.z(Q), gal.zlist(sizes), gal.boolean(joint), gal.z(rs), gal.boolean(raised)))
-        meta.append(("call", {"expr": expr, "Q": Q, "arg_sizes": sizes, "result_size": rs}, {"raised": raised, "exception": other}, pred))
+        meta.append(("call", {"expr": expr, "Q": Q, "arg_sizes": sizes, "result_size": rs, "vars": variables},
+                     {"raised": raised, "exception": other}, pred))
 
 
 # --------------------------------------------------------------------------
@@ -917,7 +924,7 @@ def check_quota_result(run, t, res, c):
     out = "Hung" if res.get("hung") else res["outcome"]
     Q = t["Q"]
     would = c.get("would_allocate")
-    data = {"kind": "expr", "expr": t["expr"], "Q": Q, "ctx": t.get("ctx"),
+    data = {"kind": "expr", "expr": t["expr"], "Q": Q, "ctx": t.get("ctx"), "raw": bool(t.get("raw")),
             "observed": {"outcome": out, "peak_traced_bytes": res.get("peak"), "result_own_size": res.get("size"),
                          "products_computed": res.get("products"), "arguments_over_quota": res.get("args_over_quota")}}
     if out in ("Hung", "Timeout", "MemoryError"):
@@ -1123,7 +1130,24 @@ def replay(run, data):
         raised, computed, size, csize, other = run_mul(i["Q"], left, i["c"], i.get("swap", False))
         return other is None and mul_predicate(i["Q"], left, i["c"], raised, computed, size) is None
     if kind == "call":
-        return True
+        i = d["input"]
+        v = i.get("vars")
+        if not v:
+            return True
+        ctx = fresh_ctx()
+        ctx["a"] = tuple(v["a"]) if v.get("a_is_tuple") else v["a"]
+        ctx["b"] = tuple(v["b"]) if v.get("b_is_tuple") else v["b"]
+        if "c" in v:
+            ctx["c"] = v["c"]
+        try:
+            engine(memoryQuota=i["Q"], convertOutputData=False)(i["expr"]).evaluate(context=ctx)
+            raised = False
+        except exceptions.MemoryQuotaExceededException:
+            raised = True
+        except Exception:
+            return False
+        over = i["Q"] > 0 and (i["result_size"] > i["Q"] or max(i["arg_sizes"]) > i["Q"])
+        return raised or not over
     if kind == "typed-param":
         for r in registry():
             if r["payload"] == d["payload"] and r["key"] == d["parameter"]:
@@ -1138,7 +1162,7 @@ def replay(run, data):
                    for c in res.get("calls", []))
     if kind == "expr":
         t = {"kind": "expr", "id": "replay", "expr": d["expr"], "N": d.get("N"), "Q": d.get("Q"), "ctx": d.get("ctx"),
-             "trace": bool(d.get("Q")), "seconds": 5, "record_args": bool(d.get("Q")), "raw": bool(d.get("Q")) and bool(d.get("ctx")),
+             "trace": bool(d.get("Q")), "seconds": 5, "record_args": bool(d.get("Q")), "raw": d.get("raw", bool(d.get("Q")) and bool(d.get("ctx"))),
              "deep": "largest_own_size_inside_result" in (d.get("observed") or {})}
         sub = type(run)(run.pid, run.tier, run.seed)
         try:
